@@ -220,3 +220,40 @@ Definition rpick (l : list string) : option string := match l with x :: _ => Som
 
 Definition rq1 : list node := [rfld "self" [rfld "p" []; rfld "q" []]].
 Definition rq2 : list node := [rfld "other" [rfld "q" []; rfld "p" []]; rfld "self" [rfld "q" []]].
+
+(** * Correspondence: the transition system evaluated on a trace the implementation just ran.
+    The harness (cmd/c06/gate.go, refresh_trace.go) holds a request after planning, with every root sub-query
+    parked inside a service client, installs the planner of another version set through setPlanner, releases the
+    request and records its answer.  As labels: Begin, Refresh to the other snapshot, one Step per root sub-plan
+    of the plan the gateway made, End.  The answer the model delivers for that trace must be the recorded one. *)
+Record refresh_case := mk_refresh_case {
+  rc_g : gschema;                (* installed at the begin of the request *)
+  rc_world : world;
+  rc_query : list node;
+  rc_other : gschema;            (* installed by the refresh that lands mid-request *)
+  rc_steps : nat;                (* root sub-plans of the gateway's plan *)
+  rc_answer : option json        (* the gateway's answer to the request (None: an error) *)
+}.
+
+Definition refresh_trace (c : refresh_case) : list label :=
+  LBegin 0 (rc_query c) :: LRefresh (rc_other c) :: repeat (LStep 0) (rc_steps c) ++ [LEnd 0].
+
+Definition check_refresh_case (c : refresh_case) : list nat :=
+  match delivered 0 (gw_run (rc_world c) rpick false (refresh_trace c) (gw_init (rc_g c))) with
+  | None => [2]                                  (* the model's request is not finished after that many steps *)
+  | Some a =>
+      match option_map norm a, rc_answer c with
+      | Some x, Some y => if json_eqb x y then [] else [1]
+      | None, None => []
+      | _, _ => [1]
+      end
+  end.
+
+Fixpoint refresh_mismatches (_ : nat) (cs : list (nat * refresh_case)) : list (nat * list nat) :=
+  match cs with
+  | [] => []
+  | (i, c) :: t => match check_refresh_case c with
+                   | [] => refresh_mismatches 0 t
+                   | l => (i, l) :: refresh_mismatches 0 t
+                   end
+  end.
